@@ -217,6 +217,18 @@ func SharedSlices(p *load.Prog, r *oblig.Report, rule string, entry *ssa.Functio
 							if b, ok := call.Common().Value.(*ssa.Builtin); ok && b.Name() == "append" {
 								appends++
 							}
+							// the list a helper returns after appending to it (merge helpers): an append to the field all the same
+							if callee := call.Common().StaticCallee(); callee != nil && load.InRepo(callee) {
+								for _, hb := range callee.Blocks {
+									for _, hin := range hb.Instrs {
+										if hc, ok := hin.(*ssa.Call); ok {
+											if hbi, ok := hc.Common().Value.(*ssa.Builtin); ok && hbi.Name() == "append" && types.Identical(hc.Type(), call.Type()) {
+												appends++
+											}
+										}
+									}
+								}
+							}
 						}
 					}
 				}
